@@ -367,4 +367,4 @@ def check(ctx):
     r6_every_import_resolved(ctx)
 
 
-CLAUSE += '; what the two cloning checkers skip is decided by reviewed predicates and comparisons of reviewed types only'
+CLAUSE += ' Also: what the two cloning checkers skip is decided by reviewed predicates and comparisons of reviewed types only.'
